@@ -16,7 +16,7 @@ import (
 // operation with every key; the post-state must equal the abstract ordered
 // dictionary's and the representation invariant must be preserved.
 
-var zzKeys = []string{"a", "b", "c", "d"}
+var zzKeys = []string{"a", "b", "c", "d", "e", "f"}
 
 type zzKV struct {
 	k string
@@ -198,9 +198,10 @@ func ZZC12Step() {
 }
 
 // ZZC12Iter: iteration protocol. While ranging over the map, at the
-// iteration that visits a chosen trigger key, one operation is performed
-// through an alias: visited keys = keys present at loop entry that are still
-// present when reached, in entry order; added keys are not visited.
+// iteration that visits a chosen trigger key, a sequence of up to two
+// operations (delete / insert-or-overwrite, each with its own key) is
+// performed through an alias: visited keys = keys present at loop entry that
+// are still present when reached, in entry order; added keys are not visited.
 func ZZC12Iter() {
 	K := zzParam("K", 3)
 	subs := zzOrderedSubsets(K)
@@ -209,8 +210,18 @@ func ZZC12Iter() {
 		zzAssume(false)
 	}
 	trigger := zzKeys[pre[zzChoice("trigger", len(pre))]]
-	key := zzKeys[zzChoice("key", K+1)]
-	op := zzChoice("op", 4) // 0 none 1 del key 2 set key 3 del key then set key
+	type mop struct {
+		kind int // 0 none 1 del 2 set
+		key  string
+	}
+	var ops []mop
+	for o := 0; o < 2; o++ {
+		k := zzChoice("op", 3)
+		if k == 0 {
+			break
+		}
+		ops = append(ops, mop{k, zzKeys[zzChoice("key", K+1)]})
+	}
 
 	src := "m:{}num\nm = {"
 	for i, ki := range pre {
@@ -220,15 +231,15 @@ func ZZC12Iter() {
 		src += zzKeys[ki] + ":" + strconv.Itoa(i+1)
 	}
 	src += "}\nn := m\nfor k := range m\n    print k\n    if k == \"" + trigger + "\"\n"
-	switch op {
-	case 0:
+	if len(ops) == 0 {
 		src += "        print \"nop\"\n"
-	case 1:
-		src += "        del n \"" + key + "\"\n"
-	case 2:
-		src += "        n." + key + " = 9\n"
-	case 3:
-		src += "        del n \"" + key + "\"\n        n." + key + " = 9\n"
+	}
+	for _, o := range ops {
+		if o.kind == 1 {
+			src += "        del n \"" + o.key + "\"\n"
+		} else {
+			src += "        n." + o.key + " = 9\n"
+		}
 	}
 	src += "    end\nend\nprint n\n"
 
@@ -245,19 +256,19 @@ func ZZC12Iter() {
 		}
 		want += "print:" + e.k + "\n|"
 		if e.k == trigger {
-			switch op {
-			case 0:
+			if len(ops) == 0 {
 				want += "print:nop\n|"
-			case 1, 3:
-				if i := zzDictIndex(d, key); i >= 0 {
-					d = append(append([]zzKV{}, d[:i]...), d[i+1:]...)
-				}
 			}
-			if op == 2 || op == 3 {
-				if i := zzDictIndex(d, key); i >= 0 {
+			for _, o := range ops {
+				i := zzDictIndex(d, o.key)
+				if o.kind == 1 {
+					if i >= 0 {
+						d = append(append([]zzKV{}, d[:i]...), d[i+1:]...)
+					}
+				} else if i >= 0 {
 					d[i].v = 9
 				} else {
-					d = append(d, zzKV{key, 9})
+					d = append(d, zzKV{o.key, 9})
 				}
 			}
 		}
@@ -271,12 +282,85 @@ func ZZC12Iter() {
 		zzLog(src + err.Error())
 	}
 	zzAssert(err == nil, "C12 iter: modifying a map while ranging over it is safe")
+	if p.out() != want {
+		zzLog("C12 iter mismatch:\n" + src + "got:  " + p.out() + "\nwant: " + want)
+	}
 	zzAssert(p.out() == want, "C12 iter: visited keys are those present at entry and still present when reached, in entry order")
 	if err == nil {
 		mv, _ := ev.global.get("m")
 		zzCheckMap(mv.(*mapVal), d, "iter")
 	}
 	zzReach("iter-ok")
+	zzWitness("end")
+}
+
+// ZZC12Copies: maps copied by array repetition are independent dictionaries:
+// an operation on one copy changes neither the original nor the other copy.
+func ZZC12Copies() {
+	K := zzParam("K", 3)
+	subs := zzOrderedSubsets(K)
+	pre := subs[zzChoice("pre", len(subs))]
+	key := zzKeys[zzChoice("key", K+1)]
+	op := zzChoice("op", 3) // 0 del 1 set 2 del then set another key
+	key2 := zzKeys[zzChoice("key2", K+1)]
+	src := "m:{}num\nm = {"
+	for i, ki := range pre {
+		if i > 0 {
+			src += " "
+		}
+		src += zzKeys[ki] + ":" + strconv.Itoa(i+1)
+	}
+	src += "}\nrep := [m] * 3\nc := rep[0]\ne := rep[2]\n"
+	var d0 []zzKV
+	for i, ki := range pre {
+		d0 = append(d0, zzKV{zzKeys[ki], float64(i + 1)})
+	}
+	dc := append([]zzKV{}, d0...)
+	de := append([]zzKV{}, d0...)
+	apply := func(d []zzKV, kind int, k string) []zzKV {
+		i := zzDictIndex(d, k)
+		if kind == 0 {
+			if i >= 0 {
+				return append(append([]zzKV{}, d[:i]...), d[i+1:]...)
+			}
+			return d
+		}
+		if i >= 0 {
+			d[i].v = 9
+			return d
+		}
+		return append(d, zzKV{k, 9})
+	}
+	switch op {
+	case 0:
+		src += "del c \"" + key + "\"\n"
+		dc = apply(dc, 0, key)
+	case 1:
+		src += "c." + key + " = 9\n"
+		dc = apply(dc, 1, key)
+	case 2:
+		src += "del c \"" + key + "\"\nc." + key2 + " = 9\ne." + key + " = 9\n"
+		dc = apply(apply(dc, 0, key), 1, key2)
+		de = apply(de, 1, key)
+	}
+	src += "ks := \"\"\nfor k := range rep[1]\n    ks = ks + k\nend\nprint m\nprint c\nprint rep[1] ks\nprint e\n"
+	ks := ""
+	for _, kv := range d0 {
+		ks += kv.k
+	}
+	want := "print:" + zzDictRender(d0) + "\n|print:" + zzDictRender(dc) + "\n|print:" + zzDictRender(d0) + " " + ks + "\n|print:" + zzDictRender(de) + "\n"
+	p := &zzPlat{}
+	ev := NewEvaluator(p)
+	err := ev.Run(src)
+	if err != nil {
+		zzLog(src + err.Error())
+	}
+	zzAssert(err == nil, "C12 copies: program runs")
+	if p.out() != want {
+		zzLog("C12 copies mismatch:\n" + src + "got:  " + p.out() + "\nwant: " + want)
+	}
+	zzAssert(p.out() == want, "C12 copies: a map copied by repetition is an independent insertion-ordered dictionary")
+	zzReach("copies-ok")
 	zzWitness("end")
 }
 
